@@ -148,7 +148,7 @@ class NeuralStateBase(abc.ABC):
         :rtype: torch.Tensor
         """
         device = device if device is not None else self.device
-        size = size if size else self.num_visible
+        size = int(size) if size else self.num_visible
         space = ((num & (1 << np.arange(size))) > 0)[::-1]
         space = space.astype(int)
         return torch.tensor(space, dtype=torch.double, device=device)
@@ -166,7 +166,7 @@ class NeuralStateBase(abc.ABC):
         :rtype: torch.Tensor
         """
         device = device if device is not None else self.device
-        size = size if size else self.rbm_am.num_visible
+        size = int(size) if size else self.rbm_am.num_visible
         if size > self.max_size:
             raise ValueError("Size of the Hilbert space is too large!")
         else:
